@@ -36,8 +36,10 @@ def vehicle_move_event(
     :param env: the simulation environment
     :return: the vehicle move report
     """
-    sim_time_start = sim.sim_time - sim.sim_timestep_duration_seconds
-    sim_time_end = sim.sim_time
+    # reports are filed while the step is being computed (the clock ticks afterwards), so
+    # sim.sim_time is the start of the time step in which the vehicle moved
+    sim_time_start = sim.sim_time
+    sim_time_end = sim.sim_time + sim.sim_timestep_duration_seconds
     vehicle_id = next_vehicle.id
     vehicle_state = prev_vehicle.vehicle_state.__class__.__name__
     vehicle_memberships = prev_vehicle.membership.to_json()
@@ -106,8 +108,9 @@ def vehicle_charge_event(
             f"Energy type mismatch: vehicle {next_vehicle.id} does not use energy type {charger.energy_type}"
         )
 
-    sim_time_start = next_sim.sim_time - next_sim.sim_timestep_duration_seconds
-    sim_time_end = next_sim.sim_time
+    # next_sim has not ticked yet: its sim_time is the start of the step of this charge event
+    sim_time_start = next_sim.sim_time
+    sim_time_end = next_sim.sim_time + next_sim.sim_timestep_duration_seconds
 
     vehicle_id = next_vehicle.id
     station_id = station.id
@@ -166,7 +169,8 @@ def report_pickup_request(
     :return: a pickup request report
     """
 
-    event_sim_time = next_sim.sim_time - next_sim.sim_timestep_duration_seconds
+    # next_sim has not ticked yet: its sim_time is the start of the step of this pickup
+    event_sim_time = next_sim.sim_time
 
     geoid = vehicle.geoid
     lat, lon = h3.h3_to_geo(geoid)
